@@ -271,8 +271,40 @@ pub fn storage_sweep() -> (usize, usize, u32) {
     (n, wrong, SWEEP_BAD.load(SeqCst))
 }
 
+// ---- "the collector's shared structures are touched only under a pin": a participant pushes a sealed bag (site 21),
+// pops one (site 23) and scans the registry (site 18) only between publishing its announcement (site 11) and
+// withdrawing it (sites 13, 14).  Also at thread exit: finalize pins before it hands the bag over.
+// (keyed by pthread_self: the hook also runs inside thread-local destructors, where Rust thread-locals are gone)
+extern "C" {
+    fn pthread_self() -> usize;
+}
+static ANNOUNCED: std::sync::Mutex<Vec<(usize, usize)>> = std::sync::Mutex::new(Vec::new());
+static UNPINNED_ACCESS: std::sync::Mutex<Vec<u32>> = std::sync::Mutex::new(Vec::new());
+
+fn pin_monitor(site: u32, a: usize, _b: usize) {
+    let me = unsafe { pthread_self() };
+    match site {
+        11 => {
+            let mut v = ANNOUNCED.lock().unwrap();
+            if !v.contains(&(me, a)) {
+                v.push((me, a))
+            }
+        }
+        13 | 14 => ANNOUNCED.lock().unwrap().retain(|x| *x != (me, a)),
+        18 | 21 | 23 => {
+            if !ANNOUNCED.lock().unwrap().iter().any(|x| x.0 == me) {
+                UNPINNED_ACCESS.lock().unwrap().push(site);
+            }
+        }
+        _ => {}
+    }
+}
+
 pub fn run(out_path: &str, seed: u64, thorough: bool, cases: usize) -> (u64, u64, u64) {
     ebr::set_tuning(64, 64);
+    UNPINNED_ACCESS.lock().unwrap().clear();
+    ANNOUNCED.lock().unwrap().clear();
+    circ::verif::set_hook(Some(pin_monitor));
     let mut out = Out::create(out_path);
     let mut rng = Rng::new(seed);
     let (mut props, mut fails) = (0u64, 0u64);
@@ -307,6 +339,23 @@ pub fn run(out_path: &str, seed: u64, thorough: bool, cases: usize) -> (u64, u64
         if bad != 0 {
             fails += 1;
             out.line(&format!("PROPFAIL C15 storage sweep (rep {}): {} deferred closures of a size that is not a multiple of the word size saw corrupted captured data", rep, bad));
+        }
+    }
+    circ::verif::set_hook(None);
+    props += 1;
+    {
+        let ua = UNPINNED_ACCESS.lock().unwrap();
+        if !ua.is_empty() {
+            fails += 1;
+            let mut sites: Vec<u32> = ua.clone();
+            sites.sort();
+            sites.dedup();
+            for p in ["C15", "C20", "C13", "C17"] {
+                out.line(&format!(
+                    "PROPFAIL {} a participant touched the collector's shared structures without being pinned ({} accesses; sites {:?}: 21 = push of a sealed bag, 23 = pop, 18 = registry scan) - e.g. the hand-over of the bag at thread exit",
+                    p, ua.len(), sites
+                ));
+            }
         }
     }
     out.line(&format!("# c15 cases={} deferred={} max_rounds={}", cases, deferred, max_rounds));
